@@ -662,6 +662,29 @@ func genPlacers(r *repo, o *out) {
 		}
 		return true
 	})
+	// git unpackOneRepo: the sub-tree presence check comes before the tree walker is made
+	{
+		uo := r.funcDecl("transmat/git", "", "unpackOneRepo")
+		var checkPos, walkPos token.Pos
+		if uo != nil {
+			ast.Inspect(uo, func(n ast.Node) bool {
+				if ce, ok := n.(*ast.CallExpr); ok {
+					switch r.src(ce.Fun) {
+					case "checkSubtreesPresent":
+						if checkPos == 0 {
+							checkPos = ce.Pos()
+						}
+					case "object.NewTreeWalker":
+						if walkPos == 0 {
+							walkPos = ce.Pos()
+						}
+					}
+				}
+				return true
+			})
+		}
+		o.def("gitCheckBeforeWalk", "Bool", fmt.Sprint(checkPos != 0 && walkPos != 0 && checkPos < walkPos), "unpackOneRepo calls checkSubtreesPresent before object.NewTreeWalker")
+	}
 	o.def("copyPlacerPostVisit", "String", leanStr(postVisit), "CopyPlacer's postVisit: which nodes are re-timed and to what")
 	o.def("copyPlacerRepairBeforeRemove", "Bool", fmt.Sprint(repairPos != 0 && removePos != 0 && repairPos < removePos), "the deferred RepairMtime of the destination's parent is set up before the destination is cleared")
 }
